@@ -7,6 +7,7 @@ A safe-mode monitor (audit hook on `exec`, wrapper on subfield_eval, canary call
 including a text-level fuzz corpus.
 """
 import math
+import copy
 import random
 import sys
 
@@ -46,7 +47,7 @@ ASSUMPTIONS = [
     "safe-mode monitor: any `exec` audit event, any call of subfield_eval or of a canary while "
     "from_human_string(safe=True) is on the stack is an evaluation",
 ]
-MUST_REACH = {"messages_shown_edited_shown_again": 150, "unterminated_registered_payloads": 20, "failed_template_reloads_provoked": 2, "earlier_texts_parsed_after_reload:syntax-error": 20, "earlier_texts_parsed_after_reload:dies-midway": 20, "earlier_texts_parsed_after_reload:good": 20, "roundtrips": 800, "templates_covered": 481, "beautified_roundtrips": 300, "packed_fields_printed": 200,
+MUST_REACH = {"directed_context_pairs": 4, "packed_fields_shown_again_under_another_sibling": 200, "messages_shown_edited_shown_again": 150, "unterminated_registered_payloads": 20, "failed_template_reloads_provoked": 2, "earlier_texts_parsed_after_reload:syntax-error": 20, "earlier_texts_parsed_after_reload:dies-midway": 20, "earlier_texts_parsed_after_reload:good": 20, "roundtrips": 800, "templates_covered": 481, "beautified_roundtrips": 300, "packed_fields_printed": 200,
               "multiline_strings": 30, "replacement_hits": 30, "safe_fuzz_texts": 300, "safe_fuzz_rejected_eval": 50,
               "registered_payload_messages": 100, "same_bytes_two_contexts": 5, "damaged_registered_payloads": 5, "degenerate_registered_payloads": 5,
               "alternating_context_message_pairs": 5, "replacement_semantics_cases": 20, "replacement_semantics_falsy_values": 4, "replacement_hits_lazy_table": 3}
@@ -472,6 +473,33 @@ def shown_edited_shown(ctx, rng, tmpl, spec, data):
     check_roundtrip(ctx, tmpl, spec, m, True, 0, {"spec": spec, "shown": 1})
     if ctx.counters.get("roundtrips", 0) == before:
         return
+    # first the narrowest edit there is: only the sibling that says how a packed field is to be read, through every value the
+    # field's serializer knows - the payload bytes stay (whether or not they are what that reading would have written)
+    switched = 0
+    for bn, blks in m.blocks.items():
+        for k, mb in enumerate(blks):
+            for vn in list(mb.vars):
+                key = (tmpl.name, bn, vn)
+                ser = se.SUBFIELD_SERIALIZERS.get(key)
+                if ser is None or not isinstance(mb.vars[vn], (bytes, bytearray)):
+                    continue
+                try:
+                    ctxs = c09.contexts_for(key, ser)
+                except Exception:
+                    continue
+                rng.shuffle(ctxs)
+                for label, cblock, _ in ctxs[:6]:
+                    sib = {sk: sv for sk, sv in cblock.vars.items() if sk != vn and sk in mb.vars and isinstance(sv, int)}
+                    if not sib or all(mb.vars.get(sk) == sv for sk, sv in sib.items()):
+                        continue
+                    for sk, sv in sib.items():
+                        mb[sk] = sv
+                    switched += 1
+                    ctx.count("packed_fields_shown_again_under_another_sibling")
+                    check_roundtrip(ctx, tmpl, spec, m, True, 0, {"spec": spec, "kind": "sibling-switched", "field": [bn, k, vn],
+                                                                 "siblings_now": {a: int(b) for a, b in sib.items()}})
+                    if switched >= 8:
+                        break
     for rnd in range(2):
         edited = []
         for bn, blks in m.blocks.items():
@@ -490,6 +518,117 @@ def shown_edited_shown(ctx, rng, tmpl, spec, data):
         ctx.count("messages_shown_edited_shown_again")
         check_roundtrip(ctx, tmpl, spec, m, True, 0, {"spec": spec, "spec2": spec2, "edited_in_place": edited[:40], "shown": 2 + rnd,
                                                      "kind": "shown-edited-shown"})
+
+
+_PAIR_CACHE = {}
+
+
+def noncanonical_context_pairs(key, seed):
+    """For a byte field read according to a sibling: payloads that are exactly what the serializer writes under sibling value A
+    and, read under sibling value B, decode fine but are NOT what it would write there (a trailing string without its
+    terminator): [(siblings A, siblings B, payload)]. Found by search, once per process."""
+    if key in _PAIR_CACHE:
+        return _PAIR_CACHE[key]
+    out = []
+    ser = se.SUBFIELD_SERIALIZERS[key]
+    try:
+        ctxs = [c for c in c09.contexts_for(key, ser) if c[2] is not None and c[2] is not se.UNSERIALIZABLE]
+    except Exception:
+        ctxs = []
+    rnd = random.Random(f"pairs:{key}:{seed}")
+    if len(ctxs) >= 2:
+        for lb, bblock, btmpl in ctxs:
+            cands = []
+            for t in range(40):
+                try:
+                    v = gen_spec.Deriver(random.Random(rnd.getrandbits(32)), size_budget=6).gen(btmpl)
+                    q = bytes(ser.serialize(bblock, v))
+                except Exception:
+                    continue
+                if len(q) > 1 and q.endswith(b"\x00"):
+                    cands.append(q[:-1])
+            for q1 in cands:
+                try:
+                    d = ser.deserialize(bblock, q1)
+                    if d is se.UNSERIALIZABLE or bytes(ser.serialize(bblock, d)) == q1:
+                        continue
+                except Exception:
+                    continue
+                for la, ablock, atmpl in ctxs:
+                    if la == lb:
+                        continue
+                    try:
+                        da = ser.deserialize(ablock, q1)
+                        if da is se.UNSERIALIZABLE or bytes(ser.serialize(ablock, da)) != q1:
+                            continue
+                    except Exception:
+                        continue
+                    sa = {k: int(v) for k, v in ablock.vars.items() if isinstance(v, int)}
+                    sb = {k: int(v) for k, v in bblock.vars.items() if isinstance(v, int)}
+                    out.append((sa, sb, q1))
+                    break
+                if len(out) >= 12:
+                    break
+            if len(out) >= 12:
+                break
+    _PAIR_CACHE[key] = out
+    return out
+
+
+def directed_context_pairs(ctx, rng):
+    """A message whose packed field is exactly what the serializer writes under its sibling's value is shown; then the sibling is
+    set to a value under which the same bytes still read fine but are not what would be written (in place, or in another message
+    with the same bytes). Both texts stand for their datagram bodies - whatever the printer remembers about those bytes."""
+    by_name = {t.name: t for t in gen_msg.all_templates()}
+    for key in sorted(se.SUBFIELD_SERIALIZERS):
+        tmpl = by_name.get(key[0])
+        if tmpl is None:
+            continue
+        try:
+            var = [v for v in tmpl.get_block(key[1]).variables if v.name == key[2]][0]
+        except Exception:
+            continue
+        if var.type not in (MsgType.MVT_VARIABLE, MsgType.MVT_FIXED):
+            continue
+        pairs = noncanonical_context_pairs(key, ctx.seed)
+        for sa, sb, payload in pairs[:6]:
+            if len(payload) > gen_msg.var_max_len(var):
+                continue
+            spec = gen_msg.limit_for_zerocode(rng, tmpl, {"flags": 0, "p_extra": 0, "max_var_len": 100, "small_block": 2, "p_omit": 0})
+            spec["acks"] = []
+            spec["extra"] = b""
+            ents = dict((bn, e) for bn, e in spec["blocks"]).get(key[1])
+            if not ents:
+                continue
+            ent = ents[0]
+            ent[key[2]] = ["b", payload]
+            for sk, sv in sa.items():
+                if sk in ent:
+                    ent[sk] = ["i", sv]
+            try:
+                data = wire.ref_encode(tmpl, spec)
+                m = _deser.deserialize(data)
+            except Exception:
+                continue
+            ctx.count("directed_context_pairs")
+            wit = {"spec": spec, "kind": "context-pair", "field": list(key), "siblings_a": sa, "siblings_b": sb}
+            check_roundtrip(ctx, tmpl, spec, m, True, 0, dict(wit, shown="under A"))
+            blk = m.blocks[key[1]][0]
+            for sk, sv in sb.items():
+                if sk in blk.vars:
+                    blk[sk] = sv
+            check_roundtrip(ctx, tmpl, spec, m, True, 0, dict(wit, shown="same object, sibling now B"))
+            # and a second message that has always been B, decoded fresh
+            spec_b = copy.deepcopy(spec)
+            ent_b = dict((bn, e) for bn, e in spec_b["blocks"])[key[1]][0]
+            for sk, sv in sb.items():
+                if sk in ent_b:
+                    ent_b[sk] = ["i", sv]
+            try:
+                mb = _deser.deserialize(wire.ref_encode(tmpl, spec_b))
+            except Exception:
+                continue
+            check_roundtrip(ctx, tmpl, spec_b, mb, True, 0, dict(wit, spec=spec_b, shown="another message under B"))
 
 
 def texts_across_template_reloads(ctx, rng, corpus):
@@ -750,6 +889,8 @@ def run(ctx):
     ctx.count("degenerate_registered_payloads", _STATE.get("degenerate_registered_payloads", 0))
     ctx.count("unterminated_registered_payloads", _STATE.get("unterminated_registered_payloads", 0))
     safe_fuzz(ctx, rng)
+    if ctx.shard % 4 == 3 or ctx.nshards < 4:
+        directed_context_pairs(ctx, rng)
     if ctx.shard == 0:
         check_replacement_semantics(ctx, rng)
     if ctx.shard % 4 in (1, 2):
